@@ -51,6 +51,7 @@ class Writer:
         self.owners = []
         self.funcs = []
         self.col0 = True
+        self.line_start = 0
         self.variant = "marked"
 
     def _put(self, text, kind):
@@ -58,7 +59,13 @@ class Writer:
             return
         self.parts.append((self.off, text, kind, tuple(self.owners)))
         self.off += len(text)
+        if "\n" in text:
+            self.line_start = self.off - (len(text) - text.rfind("\n") - 1)
         self.col0 = text.endswith("\n")
+
+    def column(self):
+        """0-based column of the next character on the current line"""
+        return self.off - self.line_start
 
     def indent(self, extra=0):
         if self.col0:
@@ -279,7 +286,19 @@ def _br_func(w, f, lang):
     head = f["head"]  # e.g. "function name", "name", "const name = async", "Cls::name"
     params = f["params"]
     name_tc = f.get("name_tc")
-    if f.get("hdr_lines") and params:
+    if f.get("hdr_lines") == "aligned" and len(params) > 1:
+        # continuation lines aligned with the opening parenthesis
+        w.code(head + "(")
+        pad = " " * w.column()
+        w.code(params[0] + ",")
+        w.nl(name_tc)
+        name_tc = None
+        for i, p in enumerate(params[1:], 1):
+            w.ws(pad)
+            w.code(p + ("," if i < len(params) - 1 else ")" + f.get("suffix", "")))
+            if i < len(params) - 1:
+                w.nl()
+    elif f.get("hdr_lines") and params:
         w.code(head + "(")
         w.nl(name_tc)
         name_tc = None
@@ -380,7 +399,18 @@ def _py_node(w, node):
         w.begin(node["name"], async_at)
         params = node["params"]
         head = "def " + node["name"]
-        if node.get("hdr_lines") and params:
+        if node.get("hdr_lines") == "aligned" and len(params) > 1:
+            w.code(head + "(")
+            pad = " " * w.column()
+            w.code(params[0] + ",")
+            w.nl(node.get("name_tc"))
+            for i, p in enumerate(params[1:], 1):
+                w.ws(pad)
+                w.code(p + ("," if i < len(params) - 1 else ")" + node.get("suffix", "") + ":"))
+                if i < len(params) - 1:
+                    w.nl()
+            w.nl(node.get("tc_open"))
+        elif node.get("hdr_lines") and params:
             w.code(head + "(")
             w.nl(node.get("name_tc"))
             for p in params:
@@ -894,9 +924,12 @@ class Gen:
             f["brace_next"] = self.chance(0.5 if L == "C#" else 0.25)
             if f["brace_next"]:
                 self.labels.add("brace_next_line")
-        if f["params"] and self.chance(0.2):
+        if f["params"] and self.chance(0.25):
             f["hdr_lines"] = True
             self.labels.add("multiline_header")
+            if len(f["params"]) > 1 and self.chance(0.4) and not any("*" in p[:2] for p in f["params"][:1]):
+                f["hdr_lines"] = "aligned"
+                self.labels.add("multiline_header_aligned")
         f["tc_open"] = self.tc()
         if L != "Python":
             f["tc_close"] = self.tc()
